@@ -487,9 +487,10 @@ def r3_parse_sites(chk, prog):
                             "the document parsed here is returned/persisted/adopted on a path that does not pass "
                             "the Ok edge of verify_role (%s)" % label, ctx.site(pbb), path=ctx.describe_path(p))
         # stored (rollback-reference) documents: only used under their own verification
-        for bb, t in ctx.calls(BYTES):
+        from .c03 import stored_reads
+        for bb, t, lvl in stored_reads(ctx):
             tr = ctx.track_call(bb)
-            docs = tr.locals_at(3)
+            docs = tr.locals_at(lvl)
             if not docs:
                 continue
             n_ref += 1
